@@ -6,7 +6,8 @@ import (
 	"verifharness/checks/c15/txkit"
 )
 
-var bigLimit = txkit.Ugnot(1_000_000_000_000)
+// far above every balance: spend limits are not C15's subject
+var bigLimit = txkit.Ugnot(1_000_000_000_000_000)
 
 // createSession delivers a master-signed create-session tx and returns the session identity.
 func (r *runner) createSession(master *holder, k *txkit.Key, expiresAt int64) *holder {
